@@ -44,7 +44,7 @@ func trimStack(s string) string {
 	lines := strings.Split(s, "\n")
 	out := []string{}
 	for _, l := range lines {
-		if strings.Contains(l, "aergoio/aergo") || strings.Contains(l, "verif/h/cmd") {
+		if strings.Contains(l, "aergoio/aergo/v2") || strings.Contains(l, vf.RepoDir()+"/") {
 			out = append(out, strings.TrimSpace(l))
 		}
 		if len(out) >= 12 {
